@@ -25,7 +25,7 @@ OP_PROP = {"Delete": "C10", "Pop": "C10", "Extend": "C11", "ExtendTypes": "C11",
 PROP_OPS = {"C10": ["Delete", "Pop"], "C11": ["Extend", "ExtendTypes", "ExtendShifted"], "C12": ["Replicate"],
             "C09": sorted(OP_PROP)}
 
-ALLF = '{"F1p", "F2p", "F3p", "F4p", "F3r", "F3q", "F3a", "F2b", "F4b", "F3x", "F2y", "E"}'
+ALLF = '{"F1p", "F2p", "F3p", "F4p", "F3r", "F3e", "F3q", "F3a", "F2b", "F4b", "F3x", "F2y", "E"}'
 TIERS = {
     "quick": {
         "C09": dict(InitFrags='{"F2p", "F4p", "F4b", "F3x", "E"}', ExtFrags='{"F1p", "F3p", "F2b"}',
@@ -321,7 +321,9 @@ def instance_table(maxk):
     inst, cells = {}, {}
     for t, rest in res.printed:
         v = tla_string_to_json(rest)
-        if t == "INST":
+        if t == "BIG":
+            inst[("BIGSPARSE", 0)] = {"f": "BIGSPARSE", "k": 0, "flav": "p", "K": v["K"]}
+        elif t == "INST":
             inst[(v["f"], v["k"])] = v
         elif t == "CELL":
             cells[v["name"]] = v["cell"]
@@ -332,9 +334,20 @@ def random_walks(nwalks, depth, maxatoms, sd):
     """Long random histories on larger structures (C09 "random longer sequences"): not chosen by TLC, but built from
     the specification's own fragment instances; every transition is judged by the same trace specification."""
     inst, cells = instance_table(depth + 1)
+    big = inst.pop(("BIGSPARSE", 0), None)
     frags = sorted(set(f for f, _ in inst))
     R = Rendering("identity", 1.0)
     walks = []
+    if big is not None:
+        # deletions of many, widely spread atoms from a large sparsely bonded structure
+        K = big["K"]
+        n = len(K["q"])
+        key = lambda i: [K["q"][i], K["pos"][i]]
+        rb = random.Random(sd + 5)
+        sets = [list(range(20, 150, 10)), list(range(5, 160, 9)), sorted(rb.sample(range(3, n), 16)), [1] + list(range(30, 160, 8)),
+                sorted(rb.sample(range(n), 25))]
+        for S in sets:
+            walks.append([{"op": "Construct", "k": 0, "frag": "BIGSPARSE", "other": K}, {"op": "Delete", "keys": [key(i) for i in S]}])
     for w in range(nwalks):
         rnd = random.Random(sd * 7919 + w)
         f0 = rnd.choice([f for f in frags if f != "E"])
@@ -478,8 +491,8 @@ def run(prop, tier, replay=None):
                         continue
                     cases.append((b, R, v))
         out.exhaustive = True
-        if prop == "C09":
-            walks = random_walks(40 if tier == "quick" else 600, 14 if tier == "quick" else 24, 40, sd)
+        if prop in ("C09", "C10"):
+            walks = random_walks((40 if tier == "quick" else 600) if prop == "C09" else 0, 14 if tier == "quick" else 24, 40, sd)
             out.notes["random_walks"] = len(walks)
             out.notes["random_walk_steps"] = sum(len(w) for w in walks)
             cases += [(w, Rendering("identity", 1.0), 0) for w in walks]
